@@ -502,15 +502,16 @@ const mvh_class wl_jc = { "jc", J_NPAR, jc_names, jc_gen, jc_run, 0, 0 };
 /* ================================================================== */
 /* uncond (C08): single-slot hand-off following the documented protocol */
 /* ================================================================== */
-enum { U_ITEMS = Q_COMMON, U_PAIRS, U_NPAR };
-static const char *const uncond_names[] = { COMMON_NAMES, "items", "pairs" };
+enum { U_ITEMS = Q_COMMON, U_PAIRS, U_DISPATCH, U_NPAR };
+static const char *const uncond_names[] = { COMMON_NAMES, "items", "pairs", "dispatch" };
 enum { st_full = 1, st_sleeping = 2 };
 static struct { volatile long p; myth_uncond_t u; volatile long signals, wakeups; } UC[4];
 
 static void uncond_gen(mvsim_rng *r, long *p, int tier) {
   p[U_ITEMS] = mvh_range(r, 1, tier ? (mvh_chance(r, 100) ? 1000 : 60) : 25);
   p[U_PAIRS] = mvh_range(r, 1, 3);
-  gen_common(r, p, 8);
+  gen_common(r, p, 14);
+  p[U_DISPATCH] = mvh_chance(r, 250) ? mvh_range(r, 2, 4) : 0;   /* several different waiters taking turns on ONE uncond */
 }
 static void uc_wait(int s) {
   int rc = myth_uncond_wait(&UC[s].u);
@@ -565,15 +566,59 @@ static void *uc_thread(void *arg) {
   }
   return (void *)(t + 1);
 }
+/* dispatcher shape: k different waiters use one uncond in consecutive rendez-vous; each announces itself by a CAS on
+   a shared word (the documented protocol) and the dispatcher signals after it has seen the announcement -- possibly
+   before the waiter has reached myth_uncond_wait, possibly long after.  The next waiter may announce itself as soon
+   as the previous signal has returned, i.e. before the previously released waiter has run again. */
+static struct { myth_uncond_t u; volatile long announce, turn; volatile long sig[4], wake[4]; } DU;
+static void *du_waiter(void *arg) {
+  long i = (long)arg - 100;
+  for (long r = 0; r < P[U_ITEMS]; r++) {
+    while (DU.turn != i + 1) { myth_yield(); mvsim_user_point(); }
+    DU.turn = 0;
+    while (!__sync_bool_compare_and_swap(&DU.announce, 0, i + 1)) mvsim_user_point();
+    if (wl_mix(P[Q_SEED], 6100 + i * 131 + r) & 1) mvsim_user_point();
+    int rc = myth_uncond_wait(&DU.u);
+    MVH_CHECK(rc == 0, "C08-RC", "myth_uncond_wait returned %d", rc);
+    DU.wake[i]++;
+    MVH_CHECK(DU.wake[i] <= DU.sig[i], "C08-NO-SIGNAL", "waiter %ld resumed without a signal addressed to it (%ld wake-ups, %ld signals)", i, (long)DU.wake[i], (long)DU.sig[i]);
+  }
+  return arg;
+}
+static void *du_dispatcher(void *arg) {
+  long k = P[U_DISPATCH];
+  for (long j = 0; j < k * P[U_ITEMS]; j++) {
+    long tgt = j % k;
+    DU.turn = tgt + 1;                                   /* only now may the next waiter announce itself */
+    while (DU.announce != tgt + 1) { myth_yield(); mvsim_user_point(); }
+    DU.announce = 0;
+    DU.sig[tgt]++;
+    int rc = myth_uncond_signal(&DU.u);
+    MVH_CHECK(rc == 0, "C08-RC", "myth_uncond_signal returned %d", rc);
+  }
+  return arg;
+}
 static void uncond_run(const long *p, mvsim_runcfg *cfg, mvsim_runstats *st) {
   P = p;
   int pairs = (int)p[U_PAIRS];
   memset((void *)UC, 0, sizeof UC);
-  cfg->budget1 += 400 * (uint64_t)p[U_ITEMS] * pairs; cfg->budget2 += 4000 * (uint64_t)p[U_ITEMS] * pairs;
+  cfg->budget1 += 400 * (uint64_t)p[U_ITEMS] * (pairs + 4); cfg->budget2 += 4000 * (uint64_t)p[U_ITEMS] * (pairs + 4);
   wl_begin(cfg, p[Q_NWORKERS], 32, p[Q_QSIZE], (int)p[Q_PFIRST]);
   for (int s = 0; s < pairs; s++) myth_uncond_init(&UC[s].u);
+  int k = (int)p[U_DISPATCH]; if (k < 0 || k == 1) k = 0; if (k > 4) k = 4;
+  myth_thread_t dth[5];
+  if (k) {
+    memset((void *)&DU, 0, sizeof DU); myth_uncond_init(&DU.u);
+    for (long i = 0; i < k; i++) { dth[i] = myth_create(du_waiter, (void *)(100 + i)); YIELD(6600 + i); }
+    dth[k] = myth_create(du_dispatcher, 0);
+  }
   spawn_all(2 * pairs, uc_thread);
   join_all(2 * pairs);
+  if (k) {
+    for (int i = 0; i <= k; i++) { void *r; myth_join(dth[i], &r); }
+    for (int i = 0; i < k; i++) MVH_CHECK(DU.wake[i] == DU.sig[i] && DU.sig[i] == p[U_ITEMS], "C08-LOST", "dispatcher shape, waiter %d: %ld signals, %ld wake-ups, %ld expected", i, (long)DU.sig[i], (long)DU.wake[i], p[U_ITEMS]);
+    myth_uncond_destroy(&DU.u);
+  }
   for (int s = 0; s < pairs; s++) {
     MVH_CHECK(UC[s].wakeups == UC[s].signals, "C08-LOST", "slot %d: %ld signals but %ld wake-ups", s, (long)UC[s].signals, (long)UC[s].wakeups);
     myth_uncond_destroy(&UC[s].u);
